@@ -8,7 +8,7 @@ args = [a for a in sys.argv[1:] if not a.startswith("--")]
 MODE = ([a for a in sys.argv[1:] if a.startswith("--")] or ["--all"])[0]
 pid, m = args[0], args[1]
 extra = args[2:]
-wt = "/tmp/wt/%s" % pid
+wt = "%s/%s" % (os.environ.get("MUT_ROOT", "/tmp/wt"), pid)
 src = "%s/MUTANTS/%s" % (wt, m)
 dst = "/verif/seeded/%s-%s" % (pid, m)
 env = dict(os.environ, PYTHONPATH=wt, MPLBACKEND="Agg")
